@@ -1,1 +1,413 @@
-From MPD Require Import Bytes Tables ParserModel BuilderModel ConnModel.
+(* ConnProofs.v — C02 / C09: the result of receive does not depend on segmentation, for both
+   buffer policies; no panic, no exhausted fuel. *)
+From Coq Require Import ZifyBool ZifyN ZifyNat.
+From Coq Require Import PeanoNat.
+From MPD Require Import Bytes Tables ParserModel BuilderModel ConnModel ParserProofs.
+Open Scope N_scope.
+
+(* ---------- bparse: fuel is irrelevant once it exceeds the buffer length ---------- *)
+
+Lemma bparse_fuel : forall f1 f2 st buf,
+  (length buf < f1)%nat -> (length buf < f2)%nat -> bparse f1 st buf = bparse f2 st buf.
+Proof.
+  induction f1 as [|f1 IH]; intros f2 st buf H1 H2; [lia|].
+  destruct f2 as [|f2]; [lia|].
+  destruct buf as [|c buf']; [reflexivity|]. cbn [bparse]. set (buf := c :: buf') in *.
+  destruct (parse_component buf) as [n comp| | |] eqn:E; try reflexivity.
+  destruct (parse_ok_stable buf n comp E) as [[L1 L2] _].
+  assert (LS : (length (skipn n buf) < f1)%nat /\ (length (skipn n buf) < f2)%nat) by (rewrite skipn_length; lia).
+  destruct LS as [LA LB]. destruct comp; try reflexivity; apply IH; assumption.
+Qed.
+
+(* the fuel-free unfolding of bparse_all *)
+Definition bstep_ne (st : bstate) (buf : bytes) (k : bstate -> bytes -> bstate * bytes * bres) : bstate * bytes * bres :=
+  match parse_component buf with
+  | RIncomplete => (st, buf, NeedMore)
+  | RError | RFailure => (st, buf, BInvalid)
+  | ROk n c =>
+    let msg := firstn n buf in
+    let rest := skipn n buf in
+    match c with
+    | CField key v => k (b_field st key v) rest
+    | CBinary len => k (b_binary st (firstn len (skipn (n - (len + 1)) msg))) rest
+    | CError code idx cmd m => (Initial, rest, Complete (b_error st (mkErr code idx cmd m)))
+    | EndOfFrame => k (b_finish_frame st) rest
+    | EndOfResponse => (Initial, rest, Complete (b_finish st))
+    end
+  end.
+
+Definition bstep (st : bstate) (buf : bytes) (k : bstate -> bytes -> bstate * bytes * bres) : bstate * bytes * bres :=
+  match buf with
+  | [] => (st, buf, NeedMore)
+  | _ => bstep_ne st buf k
+  end.
+
+Lemma bstep_nonempty st buf k : buf <> [] -> bstep st buf k = bstep_ne st buf k.
+Proof. destruct buf; [congruence | reflexivity]. Qed.
+
+Lemma bparse_all_unfold st buf : bparse_all st buf = bstep st buf bparse_all.
+Proof.
+  unfold bstep, bstep_ne. unfold bparse_all at 1. destruct buf as [|c buf']; [reflexivity|]. cbn [bparse]. set (buf := c :: buf') in *.
+  destruct (parse_component buf) as [n comp| | |] eqn:E; try reflexivity.
+  destruct (parse_ok_stable buf n comp E) as [[L1 L2] _].
+  assert (LS : (length (skipn n buf) < length buf)%nat) by (rewrite skipn_length; lia).
+  destruct comp; try reflexivity; unfold bparse_all; apply bparse_fuel; lia.
+Qed.
+
+(* ---------- bparse is incremental ---------- *)
+
+Definition app_verdict (st : bstate) (buf x : bytes) : Prop :=
+  match bparse_all st buf with
+  | (st', rest, NeedMore) => bparse_all st (buf ++ x) = bparse_all st' (rest ++ x)
+  | (st', rest, Complete r) => bparse_all st (buf ++ x) = (st', rest ++ x, Complete r)
+  | (st', rest, BInvalid) => exists st'' rest', bparse_all st (buf ++ x) = (st'', rest', BInvalid)
+  end.
+
+Lemma bparse_app : forall k buf st x, (length buf <= k)%nat -> app_verdict st buf x.
+Proof.
+  induction k as [|k IH]; intros buf st x Hk.
+  - destruct buf; [|simpl in Hk; lia]. unfold app_verdict. rewrite bparse_all_unfold. reflexivity.
+  - unfold app_verdict. rewrite (bparse_all_unfold st buf).
+    destruct buf as [|c buf']; [reflexivity|]. set (buf := c :: buf') in *.
+    assert (NE : buf <> []) by discriminate.
+    assert (NEx : buf ++ x <> []) by discriminate.
+    rewrite (bstep_nonempty st buf _ NE). unfold bstep_ne.
+    assert (U : bparse_all st (buf ++ x) = bstep_ne st (buf ++ x) bparse_all).
+    { rewrite bparse_all_unfold. apply bstep_nonempty. exact NEx. }
+    unfold bstep_ne in U.
+    destruct (parse_component buf) as [n comp| | |] eqn:E.
+    + destruct (parse_ok_stable buf n comp E) as [[L1 L2] S].
+      rewrite (S x) in U. rewrite firstn_app_le, skipn_app_le in U by lia.
+      assert (LS : (length (skipn n buf) <= k)%nat) by (rewrite skipn_length; lia).
+      destruct comp.
+      * specialize (IH (skipn n buf) (b_finish_frame st) x LS). unfold app_verdict in IH.
+        destruct (bparse_all (b_finish_frame st) (skipn n buf)) as [[st' rest] [r0| |]]; rewrite U; exact IH.
+      * exact U.
+      * exact U.
+      * specialize (IH (skipn n buf) (b_field st key value) x LS). unfold app_verdict in IH.
+        destruct (bparse_all (b_field st key value) (skipn n buf)) as [[st' rest] [r0| |]]; rewrite U; exact IH.
+      * specialize (IH (skipn n buf) (b_binary st (firstn data_length (skipn (n - (data_length + 1)) (firstn n buf)))) x LS).
+        unfold app_verdict in IH.
+        destruct (bparse_all _ (skipn n buf)) as [[st' rest] [r0| |]]; rewrite U; exact IH.
+    + reflexivity.
+    + destruct (parse_invalid_stable buf (or_introl E) x) as [S|S]; rewrite S in U; eauto.
+    + destruct (parse_invalid_stable buf (or_intror E) x) as [S|S]; rewrite S in U; eauto.
+Qed.
+
+Lemma bparse_rest_le st buf : forall st' rest v, bparse_all st buf = (st', rest, v) -> (length rest <= length buf)%nat.
+Proof.
+  remember (length buf) as k. assert (Hk : (length buf <= k)%nat) by lia. clear Heqk.
+  revert buf st Hk. induction k as [|k IH]; intros buf st Hk st' rest v H.
+  - destruct buf; [|simpl in Hk; lia]. rewrite bparse_all_unfold in H. inversion H. simpl. lia.
+  - rewrite bparse_all_unfold in H.
+    destruct buf as [|c buf']; [inversion H; simpl; lia|]. set (buf := c :: buf') in *.
+    rewrite bstep_nonempty in H by discriminate. unfold bstep_ne in H.
+    destruct (parse_component buf) as [n comp| | |] eqn:E; try (inversion H; subst; lia).
+    destruct (parse_ok_stable buf n comp E) as [[L1 L2] _].
+    assert (LS : (length (skipn n buf) <= k)%nat) by (rewrite skipn_length; lia).
+    assert (LL : length (skipn n buf) = (length buf - n)%nat) by apply skipn_length.
+    destruct comp; try (inversion H; subst; lia);
+      (eapply IH in H; [|exact LS]; lia).
+Qed.
+
+(* a completed response consumed at least one byte *)
+Lemma bparse_complete_lt st buf st' rest resp :
+  bparse_all st buf = (st', rest, Complete resp) -> (length rest < length buf)%nat.
+Proof.
+  intros B. rewrite bparse_all_unfold in B.
+  destruct buf as [|c buf']; [discriminate|]. set (buf := c :: buf') in *.
+  rewrite bstep_nonempty in B by discriminate. unfold bstep_ne in B.
+  destruct (parse_component buf) as [n comp| | |] eqn:E; try discriminate.
+  destruct (parse_ok_stable buf n comp E) as [[L1 L2] _].
+  assert (LL : length (skipn n buf) = (length buf - n)%nat) by apply skipn_length.
+  destruct comp; try (inversion B; subst; lia); (apply bparse_rest_le in B; lia).
+Qed.
+
+(* ---------- the receive loop against the reference ---------- *)
+
+Definition pol_ok (p : policy) (valid : nat) : Prop :=
+  match p with Blocking cap => (valid < cap)%nat | Async => True end.
+
+Definition wf_reader (r : reader) : Prop := Forall (fun c => c <> []) (chunks r).
+
+Definition ref_from (st : bstate) (all : bytes) (t : tail_kind) : outcome * bytes :=
+  match bparse_all st all with
+  | (_, rest, Complete resp) => (Resp resp, rest)
+  | (_, rest, BInvalid) => (ErrInvalid, rest)
+  | (st', rest, NeedMore) =>
+    match t with
+    | TFail k => (ErrIo k, rest)
+    | TEof => ((if in_progress st' || negb (beq rest []) then ErrEof else CleanEof), rest)
+    end
+  end.
+
+Lemma ref_receive_from all t : ref_receive all t = ref_from Initial all t.
+Proof. reflexivity. Qed.
+
+Lemma pol_ok_not_overfull p v : pol_ok p v -> overfull p v = false.
+Proof. destruct p; simpl; intros H; [|reflexivity]. destruct (Nat.ltb cap v) eqn:E; [|reflexivity]. apply PeanoNat.Nat.ltb_lt in E. lia. Qed.
+
+Lemma pol_ok_space p v : pol_ok p v -> (1 <= space_of p v)%nat.
+Proof. destruct p; simpl; intros H; lia. Qed.
+
+Lemma pol_ok_after p v d : pol_ok p v -> (d <= space_of p v)%nat -> pol_ok (after_read p (v + d)) (v + d).
+Proof.
+  destruct p as [cap|]; simpl; [|auto]. intros H Hd.
+  destruct (Nat.eqb (v + d) cap) eqn:E; simpl.
+  - apply Nat.eqb_eq in E. lia.
+  - apply Nat.eqb_neq in E. lia.
+Qed.
+
+Lemma pol_ok_le p v w : pol_ok p v -> (w <= v)%nat -> pol_ok p w.
+Proof. destruct p; simpl; intros; [lia | auto]. Qed.
+
+(* what one read returns *)
+Lemma read_spec space r : wf_reader r -> (1 <= space)%nat ->
+  match read space r with
+  | (Some k, _, r') => chunks r = [] /\ rtail r = TFail k /\ r' = r
+  | (None, [], r') => chunks r = [] /\ rtail r = TEof /\ r' = r
+  | (None, data, r') => data <> [] /\ (length data <= space)%nat /\ rtail r' = rtail r /\ wf_reader r' /\
+                        concat (chunks r) = data ++ concat (chunks r')
+  end.
+Proof.
+  intros W Hs. unfold read. destruct r as [cs t]. simpl in *. destruct cs as [|c cs].
+  - destruct t; simpl; auto.
+  - unfold wf_reader in W. simpl in W. inversion W as [|? ? Hc Hcs]; subst.
+    destruct (Nat.leb (length c) space) eqn:E.
+    + apply Nat.leb_le in E. destruct c as [|x c]; [congruence|]. simpl.
+      repeat split; auto; try discriminate.
+    + apply Nat.leb_gt in E.
+      destruct (firstn space c) as [|x fs] eqn:F.
+      * exfalso. destruct c; [congruence|]. destruct space; [lia|]. simpl in F. discriminate.
+      * rewrite <- F. repeat split.
+        -- rewrite F. discriminate.
+        -- rewrite firstn_length. lia.
+        -- unfold wf_reader. simpl. constructor; [|exact Hcs].
+           intro Z. apply (f_equal (@length N)) in Z. rewrite skipn_length in Z. simpl in Z. lia.
+        -- simpl. rewrite app_assoc, firstn_skipn. reflexivity.
+Qed.
+
+Definition stream (buf : bytes) (r : reader) : bytes := buf ++ concat (chunks r).
+
+Theorem recv_loop_ref : forall fuel p st buf r,
+  wf_reader r -> pol_ok p (length buf) -> (reader_bytes r < fuel)%nat ->
+  match recv_loop fuel p st buf r with
+  | (o, c', r') =>
+    o = fst (ref_from st (stream buf r) (rtail r)) /\
+    (forall resp, o = Resp resp ->
+       stream (c_buf c') r' = snd (ref_from st (stream buf r) (rtail r)) /\
+       wf_reader r' /\ rtail r' = rtail r /\ pol_ok (c_policy c') (length (c_buf c')) /\
+       (length (stream (c_buf c') r') < length (stream buf r))%nat)
+  end.
+Proof.
+  induction fuel as [|fuel IH]; intros p st buf r W P F; [lia|].
+  cbn [recv_loop]. rewrite (pol_ok_not_overfull p _ P).
+  pose proof (bparse_app (length buf) buf st (concat (chunks r)) (le_n _)) as A. unfold app_verdict in A.
+  unfold ref_from, stream.
+  destruct (bparse_all st buf) as [[st' rest] v] eqn:B.
+  pose proof (bparse_rest_le st buf st' rest v B) as RL.
+  destruct v as [resp| |].
+  - rewrite A. simpl. split; [reflexivity|]. intros resp' _. repeat split; auto.
+    + eapply pol_ok_le; eauto.
+    + (* progress: a complete response consumed at least one byte *)
+      rewrite !app_length. pose proof (bparse_complete_lt _ _ _ _ _ B). lia.
+  - (* NeedMore *)
+    assert (P' : pol_ok p (length rest)) by (eapply pol_ok_le; eauto).
+    pose proof (read_spec (space_of p (length rest)) r W (pol_ok_space p _ P')) as R.
+    destruct (read (space_of p (length rest)) r) as [[e data] r'] eqn:Rd.
+    destruct e as [k|].
+    + destruct R as (C & T & ->). rewrite C in *. simpl in *. rewrite app_nil_r in *. rewrite B, T.
+      split; [reflexivity | intros; discriminate].
+    + destruct data as [|d data].
+      * destruct R as (C & T & ->). rewrite C in *. simpl in *. rewrite app_nil_r in *. rewrite B, T.
+        split; [reflexivity|]. intros resp H. destruct (in_progress st' || negb (beq rest [])); discriminate.
+      * destruct R as (Dne & Dl & T & W' & Cc).
+        assert (F' : (reader_bytes r' < fuel)%nat).
+        { unfold reader_bytes in *. rewrite Cc, app_length in F. simpl in *. lia. }
+        assert (P2 : pol_ok (after_read p (length (rest ++ d :: data))) (length (rest ++ d :: data))).
+        { rewrite app_length. apply pol_ok_after; assumption. }
+        specialize (IH _ st' (rest ++ d :: data) r' W' P2 F').
+        destruct (recv_loop fuel _ st' (rest ++ d :: data) r') as [[o c'] r''].
+        unfold ref_from, stream in IH. rewrite T in IH.
+        rewrite <- app_assoc, <- Cc in IH. rewrite <- A in IH.
+        destruct IH as [I1 I2]. split; [exact I1|].
+        intros resp H. destruct (I2 resp H) as (J1 & J2 & J3 & J4 & J5). repeat split; auto.
+        rewrite !app_length in *. rewrite Cc, !app_length in *. lia.
+  - destruct A as (st'' & rest' & A). rewrite A. simpl. split; [reflexivity | intros; discriminate].
+Qed.
+
+(* ---------- repeated receive = reference run, whatever the segmentation ---------- *)
+
+Definition good_outcome (o : outcome) : Prop := o <> Panic /\ o <> OutOfFuel.
+
+Lemma ref_from_good st all t : good_outcome (fst (ref_from st all t)).
+Proof.
+  unfold ref_from, good_outcome. destruct (bparse_all st all) as [[s r] [x| |]]; simpl; try (split; discriminate).
+  destruct t; [destruct (in_progress s || negb (beq r []))|]; split; discriminate.
+Qed.
+
+Theorem run_ref : forall fuel c r,
+  wf_reader r -> pol_ok (c_policy c) (length (c_buf c)) ->
+  run fuel 0 c r = ref_run fuel (stream (c_buf c) r) (rtail r).
+Proof.
+  induction fuel as [|fuel IH]; intros c r W P; [reflexivity|].
+  cbn [run ref_run]. unfold receive.
+  pose proof (recv_loop_ref (S (reader_bytes r)) (c_policy c) Initial (c_buf c) r W P (Nat.lt_succ_diag_r _)) as H.
+  destruct (recv_loop (S (reader_bytes r)) (c_policy c) Initial (c_buf c) r) as [[o c'] r'].
+  rewrite ref_receive_from. destruct H as [H1 H2].
+  destruct (ref_from Initial (stream (c_buf c) r) (rtail r)) as [o2 rest2]. simpl in *. subst o2.
+  destruct o as [resp| | | | | |]; try reflexivity.
+  destruct (H2 resp eq_refl) as (J1 & J2 & J3 & J4 & _). rewrite <- J1, <- J3. f_equal. apply IH; assumption.
+Qed.
+
+Theorem run_no_panic : forall fuel c r o,
+  wf_reader r -> pol_ok (c_policy c) (length (c_buf c)) -> In o (run fuel 0 c r) -> good_outcome o.
+Proof.
+  intros fuel c r o W P. rewrite run_ref by assumption.
+  generalize (stream (c_buf c) r). induction fuel as [|fuel IH]; intros all H; [destruct H|].
+  cbn [ref_run] in H. rewrite ref_receive_from in H.
+  pose proof (ref_from_good Initial all (rtail r)) as G.
+  destruct (ref_from Initial all (rtail r)) as [o2 rest2]. simpl in G.
+  destruct o2; try (destruct H as [H|[]]; subst; exact G).
+  destruct H as [H|H]; [subst; exact G | eauto].
+Qed.
+
+(* the run is long enough: with fuel above the stream length it ends in a terminal outcome *)
+Lemma ref_run_terminal : forall fuel all t,
+  (length all < fuel)%nat -> exists rs o, ref_run fuel all t = map Resp rs ++ [o] /\ (forall x, o <> Resp x).
+Proof.
+  induction fuel as [|fuel IH]; intros all t H; [lia|].
+  cbn [ref_run]. rewrite ref_receive_from.
+  destruct (ref_from Initial all t) as [o rest] eqn:E.
+  destruct o as [resp| | | | | |].
+  2-7: (eexists [], _; split; [reflexivity | discriminate]).
+  assert (L : (length rest < length all)%nat).
+  { unfold ref_from in E. destruct (bparse_all Initial all) as [[s r] [x| |]] eqn:B.
+    - inversion E; subst. eapply bparse_complete_lt; eauto.
+    - destruct t; [destruct (in_progress s || negb (beq r []))|]; discriminate.
+    - discriminate. }
+  destruct (IH rest t ltac:(lia)) as (rs & o & R & T). exists (resp :: rs), o. rewrite R. split; [reflexivity | exact T].
+Qed.
+
+(* ---------- connect against its reference ---------- *)
+
+Inductive ref_conn :=
+  | RConnected (version : bytes) (rest : bytes)
+  | RConnInvalid | RConnEof | RConnIo (k : N).
+
+Definition ref_connect (all : bytes) (t : tail_kind) : ref_conn :=
+  match p_greeting all with
+  | ROk n v => RConnected v (skipn n all)
+  | RError | RFailure => RConnInvalid
+  | RIncomplete => match t with TEof => RConnEof | TFail k => RConnIo k end
+  end.
+
+Definition conn_matches (o : connect_outcome) (r' : reader) (x : ref_conn) (t : tail_kind) : Prop :=
+  match o, x with
+  | Connected v c, RConnected v' rest =>
+      v = v' /\ stream (c_buf c) r' = rest /\ wf_reader r' /\ rtail r' = t /\ pol_ok (c_policy c) (length (c_buf c))
+  | ConnInvalid, RConnInvalid => True
+  | ConnEof, RConnEof => True
+  | ConnIo k, RConnIo k' => k = k'
+  | _, _ => False
+  end.
+
+Theorem connect_loop_ref : forall fuel p buf r,
+  wf_reader r -> pol_ok p (length buf) -> (reader_bytes r < fuel)%nat ->
+  (buf = [] \/ p_greeting buf = RIncomplete) ->
+  let '(o, r') := connect_loop fuel p buf r in
+  conn_matches o r' (ref_connect (stream buf r) (rtail r)) (rtail r).
+Proof.
+  induction fuel as [|fuel IH]; intros p buf r W P F Hb; [lia|].
+  cbn [connect_loop]. rewrite (pol_ok_not_overfull p _ P).
+  pose proof (read_spec (space_of p (length buf)) r W (pol_ok_space p _ P)) as R.
+  assert (Hinc : p_greeting buf = RIncomplete).
+  { destruct Hb as [->|H]; [reflexivity | exact H]. }
+  destruct (read (space_of p (length buf)) r) as [[e data] r'] eqn:Rd.
+  unfold ref_connect, stream.
+  destruct e as [k|].
+  - destruct R as (C & T & ->). rewrite C. simpl. rewrite app_nil_r, Hinc, T. simpl. reflexivity.
+  - destruct data as [|d data].
+    + destruct R as (C & T & ->). rewrite C. simpl. rewrite app_nil_r, Hinc, T. simpl. exact I.
+    + destruct R as (Dne & Dl & T & W' & Cc). rewrite Cc, app_assoc.
+      set (buf' := buf ++ d :: data) in *.
+      assert (P2 : pol_ok (after_read p (length buf')) (length buf')).
+      { unfold buf'. rewrite app_length. apply pol_ok_after; assumption. }
+      destruct (good_greeting buf') as (G1 & G2 & G3).
+      destruct (p_greeting buf') as [n v| | |] eqn:E.
+      * destruct (G1 n v eq_refl) as [L S]. rewrite (S (concat (chunks r'))). simpl.
+        rewrite skipn_app_le by lia. repeat split; auto.
+        eapply pol_ok_le; [exact P2|]. rewrite skipn_length. lia.
+      * assert (F' : (reader_bytes r' < fuel)%nat).
+        { unfold reader_bytes in *. rewrite Cc, app_length in F. simpl in *. lia. }
+        specialize (IH _ buf' r' W' P2 F' (or_intror E)).
+        destruct (connect_loop fuel _ buf' r') as [o r'']. unfold ref_connect, stream in IH. rewrite T in IH. exact IH.
+      * rewrite (G2 eq_refl). simpl. exact I.
+      * rewrite (G3 eq_refl). simpl. exact I.
+Qed.
+
+Theorem connect_ref : forall p r,
+  wf_reader r -> pol_ok p 0 ->
+  let '(o, r') := connect p r in
+  conn_matches o r' (ref_connect (concat (chunks r)) (rtail r)) (rtail r).
+Proof.
+  intros p r W P. unfold connect.
+  apply (connect_loop_ref (S (reader_bytes r)) p [] r W P (Nat.lt_succ_diag_r _) (or_introl eq_refl)).
+Qed.
+
+(* ---------- invariants survive every outcome, so later calls are safe too ---------- *)
+
+Lemma recv_loop_inv : forall fuel p st buf r,
+  wf_reader r -> pol_ok p (length buf) ->
+  match recv_loop fuel p st buf r with
+  | (o, c', r') => wf_reader r' /\ rtail r' = rtail r /\ pol_ok (c_policy c') (length (c_buf c')) /\
+                   (reader_bytes r' <= reader_bytes r)%nat /\ o <> Panic
+  end.
+Proof.
+  induction fuel as [|fuel IH]; intros p st buf r W P.
+  - cbn [recv_loop]. rewrite (pol_ok_not_overfull p _ P).
+    destruct (bparse_all st buf) as [[st' rest] v] eqn:B.
+    pose proof (bparse_rest_le st buf st' rest v B) as RL.
+    destruct v; simpl; repeat split; auto; try (eapply pol_ok_le; eauto); discriminate.
+  - cbn [recv_loop]. rewrite (pol_ok_not_overfull p _ P).
+    destruct (bparse_all st buf) as [[st' rest] v] eqn:B.
+    pose proof (bparse_rest_le st buf st' rest v B) as RL.
+    assert (P' : pol_ok p (length rest)) by (eapply pol_ok_le; eauto).
+    destruct v; simpl; try (repeat split; auto; discriminate).
+    pose proof (read_spec (space_of p (length rest)) r W (pol_ok_space p _ P')) as R.
+    destruct (read (space_of p (length rest)) r) as [[e data] r'] eqn:Rd.
+    destruct e as [k|].
+    + destruct R as (C & T & ->). simpl. repeat split; auto. discriminate.
+    + destruct data as [|d data].
+      * destruct R as (C & T & ->). simpl. repeat split; auto.
+        destruct (in_progress st' || negb (beq rest [])); discriminate.
+      * destruct R as (Dne & Dl & T & W' & Cc).
+        assert (P2 : pol_ok (after_read p (length (rest ++ d :: data))) (length (rest ++ d :: data))).
+        { rewrite app_length. apply pol_ok_after; assumption. }
+        specialize (IH _ st' (rest ++ d :: data) r' W' P2).
+        destruct (recv_loop fuel _ st' (rest ++ d :: data) r') as [[o c'] r''].
+        destruct IH as (I1 & I2 & I3 & I4 & I5). repeat split; auto; try congruence.
+        unfold reader_bytes in *. rewrite Cc, app_length. lia.
+Qed.
+
+Lemma receive_outcome_good c r :
+  wf_reader r -> pol_ok (c_policy c) (length (c_buf c)) ->
+  match receive c r with (o, _, _) => good_outcome o end.
+Proof.
+  intros W P. unfold receive.
+  pose proof (recv_loop_ref (S (reader_bytes r)) (c_policy c) Initial (c_buf c) r W P (Nat.lt_succ_diag_r _)) as H.
+  destruct (recv_loop _ _ _ _ _) as [[o c'] r']. destruct H as [-> _]. apply ref_from_good.
+Qed.
+
+Theorem run_extra_good : forall fuel extra c r o,
+  wf_reader r -> pol_ok (c_policy c) (length (c_buf c)) -> In o (run fuel extra c r) -> good_outcome o.
+Proof.
+  induction fuel as [|fuel IH]; intros extra c r o W P H; [destruct H|].
+  cbn [run] in H. pose proof (receive_outcome_good c r W P) as G.
+  unfold receive in *.
+  pose proof (recv_loop_inv (S (reader_bytes r)) (c_policy c) Initial (c_buf c) r W P) as I.
+  destruct (recv_loop _ _ _ _ _) as [[o1 c'] r']. destruct I as (I1 & I2 & I3 & _).
+  destruct o1; (destruct H as [H|H]; [subst; exact G|]);
+    try (destruct extra as [|e]; [destruct H | eapply IH; eauto]).
+  eapply IH; eauto.
+Qed.
